@@ -158,6 +158,18 @@ def run(ctx):
                               {"cfg": job["cfg"], "env": job["env"], "plan": tr.plan, "time": t}, no_input=True)
             elif t.get("post") == "1":
                 ctx.count("plans_with_post_context>=half_output_period(never_early_round applies)")
+            elif not f1:
+                # every linear-phase plan of the real planner meets it (the cubic stage through its hold-back pre_post): without it a frame
+                # the final total does not contain can be handed out before end-of-input is said
+                found = cr.find_eoi_overrun(exe, job["cfg"], job["env"]) if hasattr(cr, "find_eoi_overrun") else None
+                if found:
+                    ctx.violation("C03 fails on the real code: %s (%s %s); the plan's post-context is below half an output period (hypothesis of "
+                                  "never_early_round: %s)" % (found["what"], cr.create_line(job["cfg"]), job["env"], t),
+                                  {"cfg": job["cfg"], "env": job["env"], "plan": tr.plan, "time": t, "ops": found["ops"]})
+                else:
+                    ctx.violation("hypothesis of never_early_round fails on a plan of the real planner (post-context below half an output period): %s (%s %s); "
+                                  "no stream length up to 200 frames delivered more than round(N*orate/irate)" % (t, cr.create_line(job["cfg"]), job["env"]),
+                                  {"cfg": job["cfg"], "env": job["env"], "plan": tr.plan, "time": t}, no_input=True)
         else:
             # any phase response: never_early_any_phase needs StageWF, the dft shape clauses and 0 <= b + margin per stage
             ctx.count("plans_nonlinear_phase_checked(never_early_any_phase)")
